@@ -294,6 +294,21 @@ def c05_group_order_depends_on_level():
     return out, out[0] != out[1]
 
 
+@case
+def c15_short_header_five_seps():
+    txt = 'MSH|^~\\&#|A|B\r'
+    a = raises(HL7apyException, get_message_type, txt)
+    b = raises(HL7apyException, parse_message, txt)
+    return (a, b), a == 'other:IndexError' and b == 'other:IndexError'
+
+
+@case
+def c15_validate_unknown_structure():
+    m = parse_message('MSH|^~\\&|A|B|C|D|20110708||XXX^Y01^XXX_Y01|1|P|2.5\rPID|1\r')
+    a = raises(HL7apyException, m.validate, return_errors=True)
+    return (a,), a == 'other:AttributeError'
+
+
 if __name__ == '__main__':
     names = sys.argv[1:] or sorted(CASES)
     for n in names:
